@@ -46,6 +46,12 @@ def curated():
         [E, SubF, U, UU, S.StructDef([M("plain", R(4)), M("dyn", R(4)), M("opt", R(3))])],
         # composite arrays (dynamic elements with their own array) + fixed composite array
         [E, SubF, SubD, S.StructDef([M("dyn", R(3)), M("lim", R(2), 2), M("fixed", R(2), 2)])],
+        # a message whose only composite member is optional (nothing but scalars next to it)
+        [E, SubF, S.StructDef([M("plain", I(1)), M("opt", R(2)), M("opt", I(1))])],
+        # ... the same shape as the element of an array
+        [E, SubF, S.StructDef([M("plain", I(1)), M("opt", R(2))]), S.StructDef([M("dyn", R(3)), M("plain", I(1))])],
+        # elements that hold a limited array of composites; the same type as an optional
+        [E, SubF, S.StructDef([M("lim", R(2), 2), M("plain", I(1))]), S.StructDef([M("dyn", R(3)), M("opt", R(3))])],
     ]
 
 
@@ -360,7 +366,12 @@ def _execute(env, root_t, mine, other, op):
             _spelling[0] += 1
             node.extend(node if _spelling[0] % 2 else list(node))
         elif name == "extendother":
-            onode, _ = navigate(env, other, root_t, op["path"])
+            try:
+                onode, _ = navigate(env, other, root_t, op["path"])
+            except (AttributeError, IndexError, TypeError):
+                # the path does not exist in the other message (absent optional, shorter array on the way):
+                # spec/Msg.tla ApplyAt then takes the array itself ("the shapes have diverged")
+                onode = node
             _spelling[0] += 1
             node.extend(onode if _spelling[0] % 2 else list(onode))
         elif name == "addkw":
